@@ -23,6 +23,7 @@ func init() {
 			ruleRecordFilledByFullRead(c)
 			rulePerChannelState(c)
 			ruleRawDecoderReadsStream(c)
+			rulePayloadSentVerbatim(c)
 		},
 	})
 	register(&Def{
@@ -49,6 +50,7 @@ func init() {
 			ruleHeaderLoopExits(c)
 			ruleRawDecoderReadsStream(c)
 			ruleReaderAcceptsDataEOF(c)
+			ruleParsedRecordNotDiscarded(c)
 		},
 	})
 }
